@@ -49,10 +49,17 @@ def shapes(tier):
 
 
 class _Seq:
-    """uninterpreted sequence; slicing records symbolic bounds"""
+    """uninterpreted sequence of a symbolic length; slicing records symbolic bounds (an open end is the length)"""
+    def __init__(self):
+        self.n = core.integer("len_arr")
+        core.assume(self.n >= 0)
+
+    def __len__(self):
+        raise core.UnsupportedByShim("len() of the symbolic sequence")
+
     def __getitem__(self, k):
         assert isinstance(k, slice) and k.step is None
-        return ("slice", k.start, k.stop)
+        return ("slice", 0 if k.start is None else k.start, self.n if k.stop is None else k.stop)
 
 
 def _spec_tasks(sink, path, tasks, lo, n, nb, mode, extra_args, tag):
@@ -139,6 +146,8 @@ def run_shape(shape, tier):
             core.assume(n >= 1)
             core.assume(lo >= 0)
             arr = _Seq() if mode == "arr" else None
+            if arr is not None:
+                core.assume(arr.n >= lo + n)          # the array holds at least the requested range (it may be longer)
             if shape.get("history"):
                 core.assume(n <= 8)
                 core.assume(lo <= 6)
